@@ -454,13 +454,30 @@ def check_H4(prog, rep, entry, f_da, extra, np_funcs):
         if isinstance(v, ast.Name) and v.id == 'da':
             module_param = k
     seen = 0
+    # a function shared by the backends through a `module` parameter is read with the helpers it hands that parameter on to
+    # inlined: their `module == da` tests are then decided like its own
+    handed_on = set()
+    from ..inline import inline_view
+    if module_param is not None:
+        for c_ in calls(f_da.node):
+            if any(isinstance(a_, ast.Name) and a_.id == module_param for a_ in list(c_.args) + [k_.value for k_ in c_.keywords]):
+                t_ = prog.resolve_callable(f_da, f_da.module, c_.func)
+                if isinstance(t_, Func):
+                    handed_on.add(id(t_))
     for g in dask_reachable(prog, f_da, 'dask'):
-        if g.jit is not None:
+        if g.jit is not None or id(g) in handed_on:
             continue
         only_dask = not any(g is h for h in np_funcs) or module_param is not None
         if not only_dask:
             continue
-        reds, viol = lazy_taint(prog, g, module_param=module_param if g is f_da else None)
+        gv = g
+        if g is f_da:
+            # helpers shared with the numpy path (or handed the module parameter) are read in place: a global reduction moved
+            # into a helper common to both backends is still a reduction of the lazy array outside any block function
+            shared = tuple(h.name for h in dask_reachable(prog, f_da, 'dask') if h is not f_da and h.jit is None and
+                           not any(h is x for x in np_funcs) and id(h) not in handed_on)
+            gv = inline_view(prog, g, keep=shared, allow_loops=True)
+        reds, viol = lazy_taint(prog, gv, module_param=module_param if g is f_da else None)
         for s in reds:
             seen += 1
             rep.add('H4', g, entry, norm(s)[:160], s.lineno, True,
